@@ -8,6 +8,7 @@ package rules
 import (
 	"go/token"
 	"go/types"
+	"os"
 	"strings"
 
 	"golang.org/x/tools/go/ssa"
@@ -1221,4 +1222,90 @@ func requestNumbersAreWhatConvertReads(c *core.Ctx) {
 	}
 	c.Check(handles, "request-numbers-are-what-convert-reads", posOf(use), "the conversion has a case for json.Number",
 		"the request decoder is switched to UseNumber: every number a controller writes arrives as a json.Number, which the conversion by format has no case for — a write to a float characteristic stores 0 (clamped), the remote-update callback receives it or is not called at all")
+}
+
+// polarityEverywhere: the path-resolved polarity rule ("after a failed call the function does not report success, after a successful one
+// it can") was applied function by function, to the functions a defect or a seed had pointed at. A mutation sweep over the files of the
+// fourth hunt showed what that leaves: the flipped test in (*database).Entities — an accessory that lists no pairings advertises itself as
+// unpaired — survived every check. The rule now runs over every function of the library that returns an error, under the properties
+// whose code the function's file belongs to. Functions whose failures are not reported through the error result are decided by their own
+// applications of the rule (with the in-band signal named there) and are passed over here, one line of reason each.
+var polarityFileProps = []struct {
+	prefix string
+	props  []string
+}{
+	{"db/", []string{"C18", "C20"}},
+	{"util/file_storage.go", []string{"C18", "C19"}},
+	{"util/tlv8.go", []string{"C16"}},
+	{"util/", []string{"C20"}},
+	{"crypto/", []string{"C05", "C06"}},
+	{"hap/connection.go", []string{"C07", "C08"}},
+	{"hap/http/", []string{"C09", "C13"}},
+	{"hap/pair/setup", []string{"C02", "C04"}},
+	{"hap/pair/verify", []string{"C03", "C04"}},
+	{"hap/pair/", []string{"C04"}},
+	{"hap/endpoint/", []string{"C13"}},
+	{"hap/", []string{"C10", "C13"}},
+	{"accessory/", []string{"C14"}},
+	{"characteristic/", []string{"C12"}},
+	{"service/", []string{"C15"}},
+	{"tlv8/", []string{"C17"}},
+	{"rtp/", []string{"C17"}},
+	{"event/", []string{"C10"}},
+	{"", []string{"C20"}}, // the root package: transport, configuration, pin
+}
+
+var polarityDecidedElsewhere = map[string]string{
+	"(*hap.Connection).EncryptedWrite":                          "C08-R1 applies the rule with the panic call as the signal",
+	"(*hap/pair.PairingController).Handle":                      "failures are answered in-band (error item): C04-R7 / C13-R5 apply the rule with that signal",
+	"(*hap/pair.SetupServerController).handleKeyExchange":       "in-band error item: C02-R2 / C04-R7",
+	"(*hap/pair.SetupServerController).handlePairVerify":        "in-band error item: C02-R2 / C04-R7",
+	"(*hap/pair.VerifyServerController).handlePairVerifyFinish": "in-band error item: C03-R1 / C04-R7",
+	"(*tlv8.decoder).decode":                                    "C17-R3 applies the lenient form (a field that cannot be read is skipped by design)",
+	"hap.NewDevice":                                             "a failed lookup is the 'no identity yet' case: an identity is created and saved, the error reported is that of the creation",
+}
+
+func polarityEverywhere(c *core.Ctx, prop string) {
+	p := c.P
+	n := 0
+	for _, f := range libFuncs(p) {
+		if f.Pkg == nil || f.Synthetic != "" || f.Signature.Results().Len() == 0 {
+			continue
+		}
+		pos := p.Position(f.Pos())
+		var props []string
+		for _, e := range polarityFileProps {
+			if e.prefix == "" {
+				if !strings.Contains(pos, "/") {
+					props = e.props
+				}
+				break
+			}
+			if strings.HasPrefix(pos, e.prefix) {
+				props = e.props
+				break
+			}
+		}
+		mine := false
+		for _, q := range props {
+			if q == prop {
+				mine = true
+			}
+		}
+		if !mine {
+			continue
+		}
+		if _, skip := polarityDecidedElsewhere[fname(f)]; skip {
+			continue
+		}
+		if strings.Contains(pos, "_client_") {
+			continue // the controller role (SetupClientController, VerifyClientController): no property speaks of it
+		}
+		n++
+		if os.Getenv("HCSA_DEBUG_POLARITY") != "" {
+			println("polarity:", prop, fname(f))
+		}
+		errorTestPolarity(c, f, nil)
+	}
+	c.Count("polarity_functions", n)
 }
